@@ -269,11 +269,67 @@ pub fn check(thorough: bool, _seed: u64) -> Check {
         bounds: json!({"strings": format!("(continue byte in {{1,3}}, end in {{NaN,+inf,-inf,5e-324,0.0,-0.0,1,-2,3.5,MAX,2^-1022}}) x 0..{} ends, terminator in {{0,2,none}}, 0/1/5/40 piece bytes of 0x01 or 0xff, and every prefix of every such string", if thorough {4} else {3}),
             "piece_types": "Poly3 (never fails), PolyN (variable length), Tag (fails when input is exhausted)"}),
     };
+    // long inputs: many ends (size thresholds of the evaluators that consume the generated function)
+    let long_sizes: Vec<usize> = if thorough { vec![10, 17, 33, 64, 65, 66, 70, 100, 129, 257] } else { vec![10, 33, 64, 65, 70, 100, 129] };
+    let nls = long_sizes.len();
+    let long_txt = format!("{:?}", long_sizes);
+    let long = Phase {
+        name: "long-end-lists",
+        units: nls,
+        split: 1,
+        body: Box::new(move |unit, cx| {
+            let n = long_sizes[unit];
+            let kind = cx.choose(3);
+            // patterns of ends: ascending, descending, a duplicate at one position, an equal run, one non-normal end at one position,
+            // repeats of an extreme value
+            let pat = cx.choose(6);
+            let mut ends: Vec<f64> = (0..n).map(|i| i as f64 - (n / 3) as f64 + 0.5).collect();
+            match pat {
+                0 => {}
+                1 => ends.reverse(),
+                2 => {
+                    let p = 1 + cx.choose(n - 1);
+                    ends[p] = ends[p - 1];
+                }
+                3 => {
+                    let p = cx.choose(n - 4);
+                    for k in 1..4 {
+                        ends[p + k] = ends[p];
+                    }
+                    ends.reverse();
+                }
+                4 => {
+                    let p = cx.choose(n);
+                    ends[p] = [0.0, -0.0, 5e-324, f64::NAN, f64::INFINITY, f64::NEG_INFINITY][cx.choose(6)];
+                }
+                _ => {
+                    let e = [f64::MAX, -f64::MAX, f64::MIN_POSITIVE, -f64::MIN_POSITIVE][cx.choose(4)];
+                    let p = cx.choose(n - 2);
+                    ends[p] = e;
+                    ends[p + 1] = e;
+                    if cx.flag() {
+                        ends[p + 2] = e;
+                    }
+                }
+            }
+            let mut bytes = Vec::with_capacity(n * 9 + 1 + 64);
+            for e in &ends {
+                bytes.push(1);
+                bytes.extend(e.to_bits().to_le_bytes());
+            }
+            bytes.push(0);
+            bytes.extend(std::iter::repeat(0x41u8).take(n + 40));
+            dispatch(&bytes, kind, cx)
+        }),
+        classes: class_names(true).into_iter().map(|(n, _)| (n, false)).collect(),
+        bounds: json!({"strings": format!("{:?} ends: ascending, descending, a duplicate at every position, a run of 4 equal ends at every position, one non-normal end (0,-0,5e-324,NaN,+-inf) at every position, 2-3 copies of +-MAX / +-MIN_POSITIVE at every position; followed by piece bytes", long_txt),
+            "piece_types": "Poly3, PolyN, Tag"}),
+    };
     Check {
         id: "C19",
         rule: "choice tree over byte strings: each leaf is one byte string fed to the real Arbitrary impl of Piecewise<T>; Ok values are evaluated at every x of A(ends) directly, through a fresh PiecewiseEvaluator (ascending then descending history) and through evaluate_v; non-trivial = input decoding to a function with >= 2 pieces".into(),
         assumptions: vec!["arbitrary 1.4.2 decoding of Vec<f64> (used only to classify inputs, never for the verdict)".into()],
-        phases: vec![all_bytes, patterns, structured],
+        phases: vec![all_bytes, patterns, structured, long],
         extra: Default::default(),
         controls: vec![("reference decoder agrees with arbitrary on Vec<f64>", Box::new(|| {
             let b = [1u8, 0, 0, 0, 0, 0, 0, 0xf0, 0x3f, 3, 9, 9];
